@@ -640,6 +640,15 @@ impl ByteViewArrayDecoderDeltaLength {
         // Delta length encoding has continuous strings, we can validate utf8 in one go
         if self.validate_utf8 {
             check_valid_utf8(&self.data[initial_offset..current_offset])?;
+            // ... but every value also has to start at the start of a code point
+            let mut start_offset = initial_offset;
+            for length in src_lengths {
+                // A code point starts iff the byte is not 0b10xxxxxx
+                if *length > 0 && (self.data[start_offset] as i8) < -0x40 {
+                    return Err(general_err!("encountered non UTF-8 data"));
+                }
+                start_offset += *length as usize;
+            }
         }
 
         self.data_offset = current_offset;
@@ -722,6 +731,13 @@ impl ByteViewArrayDecoderDelta {
             let mut utf8_validation_buffer = Vec::with_capacity(4096);
 
             let v = self.decoder.read(len, |bytes| {
+                // The buffers are validated as a whole below: every value also has to
+                // start at the start of a code point (not with 0b10xxxxxx)
+                if let Some(&b) = bytes.first()
+                    && (b as i8) < -0x40
+                {
+                    return Err(general_err!("encountered non UTF-8 data"));
+                }
                 let offset = array_buffer.len();
                 let view = make_view(bytes, buffer_id, offset as u32);
                 if bytes.len() > 12 {
